@@ -64,6 +64,31 @@ impl PartialEqSpecImpl for Scalar {
 }
 impl PartialEq for Scalar { #[verifier::external_body] fn eq(&self, other: &Self) -> (r: bool) { unimplemented!() } }
 
+impl FromSpecImpl<u64> for Scalar {
+    open spec fn obeys_from_spec() -> bool { true }
+    open spec fn from_spec(v: u64) -> Scalar { s_int(v as int) }
+}
+impl From<u64> for Scalar { #[verifier::external_body] fn from(v: u64) -> (r: Scalar) { unimplemented!() } }
+
+impl AddAssign<Scalar> for Scalar {
+    #[verifier::external_body]
+    fn add_assign(&mut self, rhs: Scalar) { unimplemented!() }
+}
+impl AddAssignSpecImpl<Scalar> for Scalar {
+    open spec fn obeys_add_assign_spec() -> bool { true }
+    open spec fn add_assign_req(&self, rhs: Scalar) -> bool { true }
+    open spec fn add_assign_spec(&self, rhs: Scalar) -> &Self { &s_add(*self, rhs) }
+}
+impl MulAssign<Scalar> for Scalar {
+    #[verifier::external_body]
+    fn mul_assign(&mut self, rhs: Scalar) { unimplemented!() }
+}
+impl MulAssignSpecImpl<Scalar> for Scalar {
+    open spec fn obeys_mul_assign_spec() -> bool { true }
+    open spec fn mul_assign_req(&self, rhs: Scalar) -> bool { true }
+    open spec fn mul_assign_spec(&self, rhs: Scalar) -> &Self { &s_mul(*self, rhs) }
+}
+
 impl Scalar {
     #[verifier::external_body]
     pub fn zero() -> (r: Scalar) ensures r == s_zero() { unimplemented!() }
